@@ -29,6 +29,9 @@ type Chi struct {
 
 // CDF computes the value of the cumulative density function at x.
 func (c Chi) CDF(x float64) float64 {
+	if x < 0 {
+		return 0
+	}
 	return mathext.GammaIncReg(c.K/2, (x*x)/2)
 }
 
@@ -52,7 +55,11 @@ func (c Chi) LogProb(x float64) float64 {
 		return math.Inf(-1)
 	}
 	lg, _ := math.Lgamma(c.K / 2)
-	return (c.K-1)*math.Log(x) - (x*x)/2 - (c.K/2-1)*math.Ln2 - lg
+	var lx float64
+	if c.K != 1 {
+		lx = (c.K - 1) * math.Log(x)
+	}
+	return lx - (x*x)/2 - (c.K/2-1)*math.Ln2 - lg
 }
 
 // Mean returns the mean of the probability distribution.
